@@ -32,9 +32,9 @@ theorem accSt_of_acc1 {s : St} (h : Acc1 s) (n : Nat) : AccSt ({ s with dp := (s
     refine ⟨⟨hp.congr rfl rfl rfl rfl rfl, ?_, repsOk_congr hr hk.1 rfl rfl rfl rfl rfl, posInv_of_posW hw n⟩, ?_⟩
     · show ((s.dp.wrap).setLimit n).full ≤ s.hist.size
       rw [hk.1]; exact hh
-    · intro hu
+    · refine ⟨fun hu => ?_, hpd.2⟩
       show s.rep0 < ((s.dp.wrap).setLimit n).full
-      rw [hk.1]; exact hpd hu
+      rw [hk.1]; exact hpd.1 hu
 
 theorem decodeBuffer_acc1 : ∀ (fuel outSize : Nat) (s : St), Acc1 s →
     decodeBufferC lzmaCallC fuel outSize s = some (decodeBuffer lzmaCall fuel outSize s)
@@ -87,7 +87,7 @@ theorem Coder.acc1_init (props : Props) (hv : props.valid = true) (d : Nat) (u :
   · show (DictPos.init d preset.length).full ≤ (ByteArray.mk (presetTail d preset).toArray).size
     rw [byteArray_mk_size, presetTail_length]
     exact Nat.le_refl _
-  · intro hu; cases hu
+  · exact ⟨fun hu => by cases hu, trivial⟩
 
 /-- ONE CALL of the LZMA1 coder's `code` from a state satisfying the access invariant: the checked call is the executable
     call, and the invariant holds afterwards unless LZMA_STREAM_END was returned -/
